@@ -334,9 +334,11 @@ def run_listener_scenarios(rep, pid, tier, seed):
     rnd = random.Random(seed * 31 + 5)
     bursts = [(rnd.choice([0, 1, 2, 4]), rnd.choice([200, 400]), rnd.choice([500, 2000, 4000])) for _ in range(3 if tier == "quick" else 24)]
     payloads = [b"zza:1|c\nzzb:2|g\n\nzzc:3|ms", b"one:1|c", b"p:1|c\r\nq:2|c\n", b"\nlead:1|c\ntail:2|g|#k:v\n\n"]
-    relays = [(tr, rnd.choice(payloads)) for tr in ("udp", "tcp", "unixgram")] if tier == "quick" else [(tr, p_) for tr in ("udp", "tcp", "unixgram") for p_ in payloads]
+    payloads.append(b"\n".join(b"m%d:%d|c" % (k, k) for k in range(40)))          # fills several packets of a small packet length
+    relays = [(tr, rnd.choice(payloads), None) for tr in ("udp", "tcp", "unixgram")] if tier == "quick" else [(tr, p_, None) for tr in ("udp", "tcp", "unixgram") for p_ in payloads]
+    relays += [(tr, payloads[-1], rnd.choice([16, 23, 40, 64])) for tr in (("udp",) if tier == "quick" else ("udp", "tcp", "unixgram", "udp"))]
     streams = [gen_stream(rnd) for _ in range(6 if tier == "quick" else 200)]
-    cases = ["B %d %d %d" % b for b in bursts] + ["R %s %s" % (tr, vf.hexs(p_)) for tr, p_ in relays] + ["F " + vf.hexs(x) for x in streams if x]
+    cases = ["B %d %d %d" % b for b in bursts] + ["R %s %s%s" % (tr, vf.hexs(p_), "" if pl is None else " %d" % pl) for tr, p_, pl in relays] + ["F " + vf.hexs(x) for x in streams if x]
     streams = [x for x in streams if x]
     obs = run_e2e(pid, cases, par=8, tag="listener_e2e")
     # TCP framing: what the listener model says about each stream
@@ -376,7 +378,7 @@ def run_listener_scenarios(rep, pid, tier, seed):
             rep.violation("end to end: a UDP datagram was neither processed nor counted as dropped (packets != processed + drops)", payload)
         elif f["counter"] != f["lines"]:
             rep.violation("end to end: lines of processed datagrams were lost or parsed twice (counter != lines received)", payload)
-    for (tr, p_), o in zip(relays, obs[len(bursts):]):
+    for (tr, p_, pl), o in zip(relays, obs[len(bursts):]):
         o = o[0]
         rep.count(1)
         if not o.startswith("R relayed="):
@@ -388,8 +390,16 @@ def run_listener_scenarios(rep, pid, tier, seed):
         else:
             want = p_.split(b"\n")
         want = [l for l in want if l]
-        rep.nontrivial(("relay", tr, p_))
-        if got != want or int(f["relayed_total"]) != len(want):
+        nlong = 0
+        if pl is not None:
+            nlong = sum(1 for l in want if len(l) > pl - 1)
+            want = [l for l in want if len(l) <= pl - 1]
+        rep.nontrivial(("relay", tr, p_, pl))
+        dg = [] if f.get("dgrams", "-") == "-" else [vf.unhex(x) for x in f["dgrams"].split(",")]
+        if pl is not None and (any(len(x) > pl for x in dg) or any(not x.endswith(b"\n") for x in dg) or int(f.get("long", 0)) != nlong):
+            rep.violation("end to end: a relayed datagram exceeds --statsd.relay.packet-length, splits a line, or over-long lines are miscounted",
+                          dict(transport=tr, packet_length=pl, datagram_sizes=[len(x) for x in dg], long_counter=f.get("long"), expected_long=nlong))
+        elif got != want or int(f["relayed_total"]) != len(want):
             rep.violation("end to end: lines received over %s are not relayed exactly once, in order" % tr,
                           dict(transport=tr, payload=repr(p_), relayed=[repr(x) for x in got], expected=[repr(x) for x in want], relay_counter=f["relayed_total"],
                                how="statsd_exporter --statsd.relay.address=<local sink>, payload sent once over %s, sink read for 2.5 s" % tr))
@@ -434,3 +444,22 @@ def run_liveness(rep, pid, items, limit, seed):
                                                           observed=[x[:300] for x in o[-6:]], lines=[repr(vf.unhex(x[2:])) for x in ops if x.startswith("I ")][:25]))
     rep.extra["e2e_liveness_runs"] = len(items)
     rep.extra["e2e_liveness_failures"] = bad
+
+
+def run_relay_latency(rep, pid):
+    """C17's real-time clause against the built binary: a buffered line leaves at the relay's next one-second tick"""
+    ok, out = build_binary()
+    if not ok:
+        rep.violation("the statsd_exporter binary does not build from /repo", dict(log=out[-3000:]), no_input=True)
+        return
+    lat = run_e2e(pid, ["RT 7 300"], par=1, tag="relay_latency")[0][0]
+    rep.count(1)
+    if not lat.startswith("RT latencies_ms="):
+        rep.violation("end to end relay latency scenario could not be run", dict(observed=lat), no_input=True)
+        return
+    ms = [int(x) for x in lat.split("=")[1].split(",")]
+    rep.extra["e2e_relay_latencies_ms"] = ms
+    if any(x < 0 for x in ms) or max(ms) > 1500:
+        rep.violation("end to end: a buffered line is not forwarded at the relay's next one-second tick",
+                      dict(latencies_ms=ms, how="statsd_exporter --statsd.relay.address=<local sink>; 7 lines sent 300 ms apart over UDP; each must arrive within a second "
+                                           "(1.5 s allowed); -1 = never arrived within 2.5 s of the last send"))
